@@ -28,17 +28,19 @@ def run(rep):
         "chrono NaiveTime::from_hms_opt / date arithmetic are modelled (trusted base)",
     ]
     obls = [(policy.policy_clauses, (p, ["panic", "dhuhr"], "free")) for p in policy.POLICIES]
-    obls += [(policy.imsaak, None), (wiring.prayer_times_dt_wiring, True), (wiring.prayer_times_dt_wiring, False), (wiring.get_hours_wiring, None)]
+    obls += [(policy.imsaak, None), (wiring.prayer_times_dt_wiring, True), (wiring.prayer_times_dt_wiring, False), (wiring.get_hours_wiring, None),
+             (wiring.astro_new_total, None), (wiring.from_ad_total, None)]
     modes = rounding.MODES
     keys = ["Fajr", "Shurooq", "Dhuhr"] if quick else rounding.PRAYERS
     obls += [(rounding.rounding, (m, k, -50, 75, 1500)) for m in modes for k in keys]
     results = base.run_obligations(rep, obls)
     cands = [c for x in results for c in x["cands"]]
-    if cands or any(x["inconclusive"] for x in results):
+    if cands or any(x["inconclusive"] for x in results) or rep.tier == "thorough":
         from . import c11
         a = pp.confirm_kadj(rep, results, "C07")
         r_ = c11.confirm_rounding(rep, results)
         b = pp.run_panic_grid(rep)
+        b = pp.confirm_astro_jd(rep, results) or b
         if not (a or b or r_) and cands:
             rep.inconclusive.append("solver-found panic paths were not reproduced natively; first: %r" % (cands[0],))
     rep.samples = [{"obligation": o["name"], "status": o["status"], "paths": o.get("paths")} for o in rep.obligations[:6]]
